@@ -167,3 +167,5 @@ def run(ctx):
     # converging to the solution of the *declared* calculus at the advertised order needs the weight-1 condition
     # (sum v_i c_i = 1/2 for Stratonovich RK-type steps; exact 1/2 and a single evaluation time for derivative-free Milstein)
     ctx.guard(c02.r02_3)
+    # ... and no O(h^1.5) bias per step from a one-sided difference quotient (global strong order would be 1/2)
+    ctx.guard(c02.r02_5)
